@@ -85,10 +85,12 @@ pub fn gen_batches(r: &mut Rng, len: usize) -> Vec<Value> {
                 req("Unsubscribe", d)
             } else if x < 95 {
                 req("Drop", d)
-            } else if x < 99 {
+            } else if x < 98 {
                 let mut q = req("Import", d);
                 q["kind"] = json!(if r.chance(1, 2) { "write" } else { "read" });
                 q
+            } else if x < 100 && r.chance(1, 2) {
+                req("ExportSecret", d)
             } else {
                 req("Flush", d)
             };
@@ -194,10 +196,90 @@ async fn exec(w: Arc<World>, h: SyncHandle, q: Value, sub: Option<async_channel:
             let cap = if q["kind"] == "write" { Capability::Write(doc_secret(&w, d).clone()) } else { Capability::Read(ns) };
             fin!(h.import_namespace(cap).await, |_| json!([]))
         }
+        "ExportSecret" => fin!(h.export_secret_key(ns).await, |_| json!([])),
         "Flush" => fin!(h.flush_store().await, |_| json!([])),
         other => panic!("unknown actor op {other}"),
     }
     q
+}
+
+/// Truly concurrent clients: two OS threads, each with its own runtime and its own clone of the handle, issue
+/// their requests one after the other (awaiting each reply) while the other thread does the same. The trace
+/// records each client's sequence with replies; TLC searches for an interleaving that explains all replies.
+pub fn run_concurrent(w: Arc<World>, seed: u64, rng: &mut Rng, n: usize, trace: &mut Trace, sum: &mut Summary) {
+    for i in 0..n {
+        let mut store = Store::memory();
+        for d in 1..=NDOCS {
+            store.import_namespace(Capability::Write(doc_secret(&w, d).clone())).unwrap();
+        }
+        for a in 1..=2 {
+            store.import_author(w.author(a).clone()).unwrap();
+        }
+        let handle = SyncHandle::spawn(store, None, format!("vdrive-conc-{i}"));
+        iroh_docs::verif::set_clock(50);
+        // programs without subscriptions (those are covered by the pipelined batches)
+        let progs: Vec<Vec<Value>> = (0..2)
+            .map(|c| {
+                let len = 3 + rng.below(4);
+                (0..len)
+                    .map(|j| {
+                        let d = 1 + rng.below(NDOCS);
+                        let x = rng.below(100);
+                        let mut q = if x < 25 {
+                            let mut q = req("Open", d);
+                            q["sync"] = json!(rng.chance(1, 2));
+                            q
+                        } else if x < 40 {
+                            req("Close", d)
+                        } else if x < 60 {
+                            let mut q = req("InsertLocal", d);
+                            // distinct keys per client and step: the outcome does not depend on the store's tie rules
+                            q["e"] = json!({"a":1 + c,"k":key_json(&[c as u8, j as u8]),"ts":50,"h":1,"len":1});
+                            q
+                        } else if x < 72 {
+                            let mut q = req("InsertRemote", d);
+                            q["e"] = json!({"a":1 + c,"k":key_json(&[9, c as u8, j as u8]),"ts":40,"h":2,"len":1});
+                            q
+                        } else if x < 82 {
+                            req("GetState", d)
+                        } else if x < 92 {
+                            let mut q = req("SetSync", d);
+                            q["sync"] = json!(rng.chance(1, 2));
+                            q
+                        } else {
+                            req("SyncInit", d)
+                        };
+                        q["c"] = json!(c + 1);
+                        q["now"] = json!(50);
+                        q
+                    })
+                    .collect()
+            })
+            .collect();
+        let mut threads = vec![];
+        for prog in progs.into_iter() {
+            let h = handle.clone();
+            let w2 = w.clone();
+            threads.push(std::thread::spawn(move || {
+                let rt = tokio::runtime::Builder::new_current_thread().enable_all().build().unwrap();
+                rt.block_on(async move {
+                    let mut out = vec![];
+                    for q in prog {
+                        out.push(exec(w2.clone(), h.clone(), q, None).await);
+                    }
+                    out
+                })
+            }));
+        }
+        let clients: Vec<Value> = threads.into_iter().map(|t| Value::Array(t.join().unwrap_or_default())).collect();
+        trace.emit(json!({"ev":"Reset","run":format!("conc-{i}"),"seed":seed,"ops":[],"backend":"mem","caps":["write","write"]}));
+        trace.emit(json!({"ev":"Conc","clients":clients}));
+        sum.add("histories", 1);
+        sum.add("concurrent_runs", 1);
+        let rt = tokio::runtime::Builder::new_current_thread().enable_all().build().unwrap();
+        let _ = rt.block_on(handle.shutdown());
+    }
+    iroh_docs::verif::set_clock(0);
 }
 
 pub fn run(w: Arc<World>, seed: u64, rng: &mut Rng, schedules: Vec<Value>, n: usize, dir: &Path, trace: &mut Trace, sum: &mut Summary) {
